@@ -8,6 +8,19 @@ NOTE = ("Trusted: Lean 4.33.0 kernel (axioms propext, Classical.choice, Quot.sou
         "Modelled rather than verified: Vec/HashMap/BinaryHeap/String as lists, u8/u16/usize as Nat, panics as a result value. ")
 
 CLAIMS = {
+ 'C06': ("Theorems in Purr/Props/C06.lean: every expect/unreachable!/overflow site of the code is an explicit panic outcome of the model, and the theorems show them unreachable: "
+         "reading any string never reaches a panic site of the token readers or of read (read_no_panic, by induction over the reader transducer); the string writer never panics on the events "
+         "of the reader or of the traversal of any adjacency list (via C08); hydrogen queries cannot overflow (subvalence <= 6, hydrogens <= 9 for any degree). Termination of every model function is "
+         "Lean's own obligation. PARTIAL: Builder/Trace on reader events and the traversal's internal expect(chain head) are not yet theorems — they are covered by the correspondence harness, which runs the real "
+         "code under catch_unwind on every suite and treats a panic where the model has none as a disagreement. Two known findings are listed in known_findings.json (D17: more than 99 open ring closures, D18: stack "
+         "exhaustion on ~10^5 nested parentheses); they are false of the code, hence not provable.",
+         "Lean 4 proof that panic outcomes of the model are unreachable (reader, writer, hydrogen queries) + differential correspondence with catch_unwind on all suites", "4.6"),
+ 'C08': ("Theorems in Purr/Props/C08.lean: reader_conformant — for EVERY string, valid or not, the emitted history satisfies the follower contract (invariant: protocol path length = sum of the transducer's "
+         "chain-length stack, every entry below the top >= 1; proved by induction over the reader transducer); walker_conformant — for EVERY adjacency list, including garbage, the traversal's history up to its error "
+         "satisfies the contract (invariant: protocol path length = base + chain length, pop depth = number of chain entries unwound < chain length); conformant_writer_safe — a conformant history never drives the writer "
+         "into its documented panics. PARTIAL: 'joins in matched pairs on well-formed graphs' and Builder/Trace safety are not yet theorems; the pairing is checked by the online oracle on the real event stream and by the "
+         "S-graph correspondence.",
+         "Lean 4 proof (protocol invariants by induction over reader transducer and traversal loop, for all inputs) + differential correspondence of event streams", "4.8"),
  'C07': ("Theorems in Purr/Props/C07.lean: for every value of every feature type and every bracket atom with any combination of its six fields, "
          "the reader applied to text(v) ++ rest returns norm(v) and rest, for every continuation rest whose first character cannot extend the token "
          "(follow-set side conditions made explicit); text is injective up to the documented shorthands (AL/TH pair, H0 = absent), and norm identifies nothing else; "
